@@ -40,6 +40,86 @@ theorem tail_refines (xs : List LoD.Item) (m : Nat) :
     gatherI xs (sliceIdx xs.length (some ((xs.length - min xs.length m : Nat) : Int)) none) = LoD.tail xs m := by
   rw [gatherI_slice_drop]; rfl
 
+/-! ### filter / filter_out / unique: the generator bodies -/
+
+/-- `for item in self: if <test item>: yield item` — the items themselves (same objects), in order, that pass the test. -/
+def keepIf (test : Term) : Term :=
+  Term.app "for" [Term.sym "item", Term.sym "self", Term.app "block"
+    [Term.app "if" [test, Term.app "block" [Term.app "yield" [Term.sym "item"]], Term.app "block" []]]]
+
+def kvExtract : Term := Term.app "operator.itemgetter" [Term.app "*" [Term.app ".keys" [Term.sym "key_value_pairs"]]]
+def kvValues (truth : Term → Bool) : Term :=
+  let vs := Term.app "tuple" [Term.app ".values" [Term.sym "key_value_pairs"]]
+  if truth (Term.app "Eq" [Term.app "len" [vs], Term.int 1]) then Term.app "getitem" [vs, Term.int 0] else vs
+
+/-- filter as written: with a callable, the items for which it is truthy; with key=value pairs, the items whose
+    `itemgetter(*keys)` equals the values (one value unwrapped, as `itemgetter` does for one key) — ALL pairs must match. -/
+theorem filter_code (truth : Term → Bool) :
+    ListOfDicts_filter truth =
+      if truth (Term.app "callable" [Term.sym "function"]) then Out.fall [keepIf (Term.app "function" [Term.sym "item"])]
+      else if truth (Term.sym "key_value_pairs") then
+        Out.fall [keepIf (Term.app "Eq" [Term.app "call" [kvExtract, Term.sym "item"], kvValues truth])]
+      else Out.fall [] := by
+  unfold ListOfDicts_filter kvValues
+  cases truth (Term.app "callable" [Term.sym "function"]) <;> cases truth (Term.sym "key_value_pairs") <;>
+    cases truth (Term.app "Eq" [Term.app "len" [Term.app "tuple" [Term.app ".values" [Term.sym "key_value_pairs"]]], Term.int 1]) <;> rfl
+
+/-- filter_out is the exact complement: `not function(item)` / `extract(item) != values` (the negation of the WHOLE
+    conjunction: an item matching only some pairs is kept). -/
+theorem filter_out_code (truth : Term → Bool) :
+    ListOfDicts_filter_out truth =
+      if truth (Term.app "callable" [Term.sym "function"]) then
+        Out.fall [keepIf (Term.app "not" [Term.app "function" [Term.sym "item"]])]
+      else if truth (Term.sym "key_value_pairs") then
+        Out.fall [keepIf (Term.app "NotEq" [Term.app "call" [kvExtract, Term.sym "item"], kvValues truth])]
+      else Out.fall [] := by
+  unfold ListOfDicts_filter_out kvValues
+  cases truth (Term.app "callable" [Term.sym "function"]) <;> cases truth (Term.sym "key_value_pairs") <;>
+    cases truth (Term.app "Eq" [Term.app "len" [Term.app "tuple" [Term.app ".values" [Term.sym "key_value_pairs"]]], Term.int 1]) <;> rfl
+
+/-- the first-seen scan of `unique`: an item is yielded exactly when its key tuple has not been seen; the keys are the given
+    ones, or — only when none are given — the keys common to all items.  Nothing else (no grouping state) enters. -/
+theorem unique_code (truth : Term → Bool) (hne : truth (Term.sym "self") = true) (hkeys : truth (Term.sym "keys") = true) :
+    ListOfDicts_unique truth =
+      let seen := Term.app "set" []
+      let extract := Term.app "operator.itemgetter" [Term.app "*" [Term.sym "keys"]]
+      Out.fall [Term.app "for" [Term.sym "item", Term.sym "self", Term.app "block"
+        [Term.app "assign" [Term.sym "id", Term.app "call" [extract, Term.sym "item"]],
+         Term.app "if" [Term.app "NotIn" [Term.sym "id", seen],
+           Term.app "block" [Term.app ".add" [seen, Term.sym "id"], Term.app "yield" [Term.sym "item"]], Term.app "block" []]]]] := by
+  unfold ListOfDicts_unique
+  simp [hne, hkeys]
+
+/-! ### sort: one stable pass per key, last key first -/
+
+def itemKey : Term := Term.app "getitem" [Term.sym "item", Term.sym "key"]
+
+/-- the key function of one pass: ascending `(v is None, v)`, descending `(v is not None, v)` under `reverse=True` — so a
+    `None` is last in both directions (`C15.sort_nones_last`), and `sorted` (stable) keeps ties in their previous order. -/
+def sortKeyDef : Term :=
+  Term.app "def" [Term.sym "sort_key", Term.app "params" [Term.sym "item"], Term.app "block"
+    [Term.app "return" [Term.app "ifexp" [Term.app "Gt" [Term.sym "dir", Term.int 0],
+      Term.app "tuple" [Term.app "Is" [itemKey, Term.sym "None"], itemKey],
+      Term.app "tuple" [Term.app "IsNot" [itemKey, Term.sym "None"], itemKey]]]]]
+
+/-- **sort as written**: starting from the receiver's items, for each `(key, dir)` pair taken in REVERSED order
+    (`list(items)[::-1]`: the last key is sorted first, the first key last = most significant), reject a `dir` other
+    than 1 / -1, then `data = sorted(data, key=sort_key, reverse=dir < 0)`; the result is `_new` of the last `data`
+    (the item objects themselves). -/
+theorem sort_code (truth : Term → Bool) :
+    ListOfDicts_sort truth =
+      let loop := Term.app "for" [Term.app "tuple" [Term.sym "key", Term.sym "dir"],
+        Term.app "getitem" [Term.app "list" [Term.app ".items" [Term.sym "key_dir_pairs"]],
+          Term.app "slice" [Term.sym "None", Term.sym "None", Term.int (-1)]],
+        Term.app "block"
+          [Term.app "if" [Term.app "NotIn" [Term.sym "dir", Term.app "list" [Term.int 1, Term.int (-1)]],
+             Term.app "block" [Term.app "raise" [Term.sym "ValueError"]], Term.app "block" []],
+           sortKeyDef,
+           Term.app "assign" [Term.sym "data", Term.app "sorted" [Term.sym "data", Term.app "=key" [Term.sym "sort_key"],
+             Term.app "=reverse" [Term.app "Lt" [Term.sym "dir", Term.int 0]]]]],
+        Term.app "init" [Term.sym "data", Term.sym "self"]]
+      Out.ret [loop] (Term.app "._new" [Term.sym "self", Term.app "value-after-loop" [Term.sym "data", loop]]) := rfl
+
 example : sliceIdx 5 (some (5 - 0)) none = [] ∧ sliceIdx 5 (some (-0)) none = [0, 1, 2, 3, 4] := by decide
 
 end DI.Tie.C15
